@@ -53,14 +53,26 @@ def hasSub (pat : Str) : Str → Bool
   | [] => pat.isEmpty
   | c :: cs => startsWith pat (c :: cs) || hasSub pat cs
 
+/-! literals of the source, as character lists -/
+def sHttp : Str := ['h','t','t','p']
+def sMessages : Str := ['/','m','e','s','s','a','g','e','s','/']
+def sMessagesQ : Str := ['/','m','e','s','s','a','g','e','s','/','?']
+def sEventPfx : Str := ['e','v','e','n','t',':',' ']
+def sDataPfx : Str := ['d','a','t','a',':',' ']
+def sEndpoint : Str := ['e','n','d','p','o','i','n','t']
+def sMessage : Str := ['m','e','s','s','a','g','e']
+def sKeepalive : Str := ['k','e','e','p','a','l','i','v','e']
+def sMcp : Str := ['/','m','c','p']
+def sJsonrpc : Str := ['\"','j','s','o','n','r','p','c','\"']
+
 /-- `_handle_endpoint_event`: the message URL built from the announced data.
 `base` is `parameters.url.rstrip("/")`. -/
 def resolveEndpoint (base data : Str) : Str :=
   let p := strip data
   if startsWith ['/'] p then base ++ p
-  else if p.contains '=' && !startsWith "http".toList p then
-    if hasSub "/messages/".toList base then base ++ '?' :: p
-    else base ++ "/messages/?".toList ++ p
+  else if p.contains '=' && !startsWith sHttp p then
+    if hasSub sMessages base then base ++ '?' :: p
+    else base ++ sMessagesQ ++ p
   else p
 
 /-! ## 2. event-stream parser -/
@@ -83,20 +95,20 @@ structure LSt where
 def stepLine (st : LSt) (raw : Str) : LSt × List Act :=
   let line := rstripCR raw
   if line = [] then ({ st with cur := none }, [])
-  else match stripPrefix "event: ".toList line with
+  else match stripPrefix sEventPfx line with
     | some r => ({ st with cur := some (strip r) }, [])
     | none =>
-      match stripPrefix "data: ".toList line with
+      match stripPrefix sDataPfx line with
       | none => (st, [])
       | some r =>
         let d := strip r
-        if st.cur = some "endpoint".toList then
+        if st.cur = some sEndpoint then
           ({ st with haveUrl := decide (strip d ≠ []) }, [.endpoint d])
-        else if st.cur = some "message".toList then (st, [.message d])
-        else if st.cur = some "keepalive".toList then (st, [])
-        else if !st.haveUrl && (hasSub "/messages/".toList d || hasSub "/mcp".toList d) then
+        else if st.cur = some sMessage then (st, [.message d])
+        else if st.cur = some sKeepalive then (st, [])
+        else if !st.haveUrl && (hasSub sMessages d || hasSub sMcp d) then
           ({ st with haveUrl := decide (strip d ≠ []) }, [.endpoint d])
-        else if startsWith ['{'] d && hasSub "\"jsonrpc\"".toList d then (st, [.message d])
+        else if startsWith ['{'] d && hasSub sJsonrpc d then (st, [.message d])
         else (st, [])
 
 def stepLines (st : LSt) : List Str → LSt × List Act
@@ -402,6 +414,27 @@ def runReqs {α : Type} (st : St α) (rs : List (Req α)) : St α := rs.foldl (f
 
 /-- messages the validator accepts, as read-stream entries -/
 def oks {α : Type} (ms : List (Msg α)) : List (Out α) := (ms.filter (·.ok)).map .routed
+
+/-- has this read-stream entry the id `k`? -/
+def hasKey {α : Type} (k : Str) (o : Out α) : Bool := decide (o.key = some k)
+
+/-- background messages a request's schedule handles between its two racing steps, as
+read-stream entries (only the modes with a 202 have such a gap) -/
+def mid {α : Type} (mode : Mode α) (bg1 : List (Msg α)) : List (Out α) :=
+  match mode with
+  | .evThenAck _ => oks bg1
+  | .ackThenEv _ => oks bg1
+  | .silence => oks bg1
+  | _ => []
+
+/-- everything the schedule of one request is expected to put on the read stream -/
+def reqOut {α : Type} (k : Str) (mode : Mode α) (bg0 bg1 bg2 : List (Msg α)) : List (Out α) :=
+  oks bg0 ++ mid mode bg1 ++ [terminal k mode] ++ oks bg2
+
+def Req.out {α : Type} (r : Req α) : List (Out α) := reqOut r.key r.mode r.bg0 r.bg1 r.bg2
+
+/-- the background part of it -/
+def Req.bgOut {α : Type} (r : Req α) : List (Out α) := oks r.bg0 ++ mid r.mode r.bg1 ++ oks r.bg2
 
 /-! ## 5. resources -/
 
